@@ -23,7 +23,9 @@ import (
 // lines (no rule). Semantics as documented in pkg/ignore/doc.go: a pattern
 // without '/' is tested against the base name, a pattern with '/' against the
 // whole relative path; an ignored directory excludes everything below it.
-// No negation, no character classes, no escapes.
+// The features combine: "/docs/" is anchored AND directory-only (the root
+// docs directory and everything below it, not sub/docs), "/sub/*.tmp" and
+// "/a?c" are anchored globs. No negation, no character classes, no escapes.
 
 // glob matches pattern against s; neither '*' nor '?' matches '/'.
 func glob(pat, s []rune) bool {
